@@ -329,12 +329,18 @@ def materialise(ctx, ref):
         write_ref(r, variants[k])
 
 
+_BASE_CACHE = {}
+
+
 def _base_model(callee):
+    if callee in _BASE_CACHE:
+        return _BASE_CACHE[callee]
     from .interp import canon_callee
     from . import models as M0
     key = canon_callee(callee)
     for pat, fn in MODELS_LEX_TAIL + MT.MODELS_TEXT + M0.MODELS:
         if pat.fullmatch(key):
+            _BASE_CACHE[callee] = fn
             return fn
     raise Inconclusive("no base model for " + callee)
 
